@@ -5,6 +5,7 @@ package harness
 import (
 	"fmt"
 	"math"
+	"math/big"
 	"reflect"
 	"testing"
 
@@ -222,6 +223,36 @@ type c12Case struct {
 	valid   bool
 	kind    string
 	typed   bool
+	either  bool // loading and refusing are both acceptable (only a panic is a violation)
+}
+
+// genHostileDims draws 1..4 extents from a pool of boundary values and returns them with the
+// element count a wrap-around multiplication would arrive at when that is small (else 0..2).
+func genHostileDims(rt *rapid.T) ([]int64, int) {
+	pool := []int64{0, 0, 1, 2, 3, 4, -1, -2, 1 << 31, 1 << 32, 1 << 62, math.MaxInt64, math.MinInt64, 6148914691236517206, 1<<32 + 1, 3074457345618258603}
+	n := rapid.IntRange(1, 4).Draw(rt, "nHostileDims")
+	dims := make([]int64, n)
+	wrapped := uint64(1)
+	for i := range dims {
+		dims[i] = rapid.SampledFrom(pool).Draw(rt, "hostileDim")
+		wrapped *= uint64(dims[i])
+	}
+	if wrapped <= 8 && rapid.IntRange(0, 4).Draw(rt, "matchWrapped") > 0 {
+		return dims, int(wrapped)
+	}
+	return dims, rapid.IntRange(0, 2).Draw(rt, "hostileCount")
+}
+
+// trueElementCount: the exact product of the extents, and whether any extent is negative.
+func trueElementCount(dims []int64) (*big.Int, bool) {
+	p, neg := big.NewInt(1), false
+	for _, d := range dims {
+		if d < 0 {
+			neg = true
+		}
+		p.Mul(p, big.NewInt(d))
+	}
+	return p, neg
 }
 
 func (c c12Case) String() string {
@@ -242,7 +273,7 @@ func c12Gen(rt *rapid.T) c12Case {
 	c.valid = true
 	c.kind = "valid"
 	es := elemSize(dt)
-	switch rapid.IntRange(0, 19).Draw(rt, "malform") {
+	switch rapid.IntRange(0, 21).Draw(rt, "malform") {
 	case 0: // payload short by one byte / one element
 		if c.typed {
 			c.dropTyped(1)
@@ -285,6 +316,27 @@ func c12Gen(rt *rapid.T) c12Case {
 	case 4: // dims whose product overflows / is huge
 		c.tp.Dims = append([]int64{1 << 62, 4}, c.tp.Dims...)
 		c.kind, c.valid = "overflowing-dims", false
+	case 9, 10: // hostile dims: zeros, negatives and extents whose product wraps around 2^64, with a payload that matches the wrapped product
+		dims, k := genHostileDims(rt)
+		c.backing = reflect.MakeSlice(reflect.SliceOf(dt.Type), 0, 0).Interface()
+		if k > 0 {
+			c.backing = genBits(dt, k).Draw(rt, "hostileValues")
+		}
+		c.tp = encodeTensor("w", []int{k}, c.backing, c.typed)
+		c.tp.Dims = dims
+		exact, neg := trueElementCount(dims)
+		switch {
+		case neg || !exact.IsInt64() || exact.Int64() != int64(k):
+			c.kind, c.valid = "overflowing-dims", false
+		case k == 0:
+			c.kind, c.either = "empty-tensor", true // zero elements: loading it or refusing it are both fine
+		default:
+			c.shape = make([]int, len(dims))
+			for i, d := range dims {
+				c.shape[i] = int(d)
+			}
+			c.kind = "valid"
+		}
 	case 5: // declared shape with a different element count
 		c.tp.Dims = append(c.tp.Dims, 2)
 		c.kind, c.valid = "count-mismatch-dims", false
@@ -355,6 +407,9 @@ func c12Judge(c c12Case, res decodeResult) string {
 			return ""
 		}
 		return "decoding panics: " + fmt.Sprint(res.panicVal)
+	}
+	if c.either {
+		return ""
 	}
 	if !c.valid {
 		if res.err != nil {
